@@ -167,6 +167,26 @@ func plan(seed int64, tier string) []vrt.Case {
 			mk(fmt.Sprintf("BENIGN%d", i), m.MID, "header-only")
 		}
 	}
+	// Hostile content in headers other than Mid (the property speaks of "message identifier or header
+	// content chosen by a remote station"): mailbox-private headers (X-FilePath, X-Unread, X-P2POnly)
+	// that a remote has no business setting, attachment names, duplicate Mid lines - with path values
+	// aimed at the decoys. Both directly (parsed message -> ProcessInbound) and through a real Session.
+	hostileValues := []string{"/l1/decoy.b2f", "/l1/l2/l3/l4/l5/l6/x.b2f", "/abs/created-by-header.b2f", "/etc/passwd", "../../decoy.b2f", "../x.b2f", "../../../../../../../x",
+		"/l1/l2/l3/l4/l5/l6/mbox2/in/x.b2f", "/l1/l2/l3/l4/l5/l6/link.b2f", "/tmp/new/dir/file.b2f", "true", ""}
+	hostileNames := []string{"X-FilePath", "X-Filepath", "x-filepath", "X-Unread", "X-P2POnly", "X-File-Path", "Content-Location", "X-Mid", "Mid"}
+	hi := 0
+	for _, hn := range hostileNames {
+		for _, hv := range hostileValues {
+			hi++
+			extra := [][2]string{{hn, hv}}
+			if hi%4 == 0 {
+				extra = append(extra, [2]string{"File", "0 ../../../x"})
+			}
+			arg, _ := json.Marshal(b2fx.SessionJailArg{HeaderMID: []byte(fmt.Sprintf("HDR%d", hi)), LibMaster: hi%2 == 0, Extra: extra})
+			sess = append(sess, mboxkit.Op{Kind: "inbound-hdr", MID: []byte(fmt.Sprintf("HDR%d", hi)), Arg: arg, Note: "header:" + strings.ToLower(hn)})
+			sess = append(sess, mboxkit.Op{Kind: "session", MID: []byte(fmt.Sprintf("HDS%d", hi)), Arg: mustArg(b2fx.SessionJailArg{HeaderMID: []byte(fmt.Sprintf("HDS%d", hi)), LibMaster: hi%2 == 0, Extra: extra}), Note: "header:" + strings.ToLower(hn) + "/session"})
+		}
+	}
 	for lo := 0; lo < len(sess); lo += 12 {
 		cs = append(cs, vrt.Case{ID: fmt.Sprintf("session-%d", lo), TimeoutS: 900, Params: vrt.MustParams(params{Ops: sess[lo:min(lo+12, len(sess))]})})
 	}
@@ -267,4 +287,12 @@ func Judge(o *vrt.Obs, res mboxkit.Result) {
 		v := o.Violate(key, "%s with identifier %q changed files outside the mailbox directory %s: %s (call result: %s)", kind, string(r.Op.MID), mboxkit.JailMbox, strings.Join(what, ", "), r.Ret)
 		v.Detail = map[string]any{"op": r.Op, "mid_hex": hex.EncodeToString(r.Op.MID), "changes": r.Escapes, "result": r.Ret, "chroot": res.Chroot}
 	}
+}
+
+func mustArg(v any) json.RawMessage {
+	b, err := json.Marshal(v)
+	if err != nil {
+		panic(err)
+	}
+	return b
 }
